@@ -221,7 +221,11 @@ theorem seenHist_append (sty : Style) : ∀ (evs₁ evs₂ : List AEvent) (a : A
             · have : a.fs ∈ (runOps ft (autosaveOps sty l.cfg) 0 a.fs).seen := by
                 cases hops : autosaveOps sty l.cfg with
                 | nil => simp [runOps]
-                | cons op rest => unfold runOps; split <;> simp
+                | cons op rest =>
+                  unfold runOps
+                  split
+                  · split <;> simp
+                  all_goals simp
               split <;> exact this
             · simp
       | restart => simp [AEvent.seen]
